@@ -4,11 +4,12 @@
    memory maximum unfold to coq/Gen definitions regenerated from memory.go and binary/decoder.go),
    [extern_match] is the specification's import subtyping, [instantiate] the instantiation sequence on the
    multi-instance store of the reference semantics W (Wasm/Sem.v). *)
-From Verif Require Import Lib.GoInt Gen.GenC04Wasm Gen.GenC04Binary Wasm.Numerics Wasm.Sem Proofs.SemP Rt.Linking Proofs.LinkingP.
+From Verif Require Import Lib.GoInt Gen.GenC04Wasm Gen.GenC04Binary Wasm.Numerics Wasm.Sem Proofs.SemP Rt.Linking Proofs.LinkingP Proofs.LiveFrameP.
 Open Scope Z_scope.
 
 (* the boolean [extern_match] is the specification's relation: function types equal; limits {n1,m1?} <= {n2,m2?}
-   iff n1 >= n2 and (m2 absent or m1 present and m1 <= m2), element types equal; global types equal incl. mutability *)
+   iff n1 >= n2 and (m2 absent or m1 present and m1 <= m2), element types equal; memory types: limits as above AND the
+   same shared flag (threads proposal); global types equal incl. mutability *)
 Theorem C04_extern_match_is_spec : forall act imp, extern_match act imp = true <-> extern_sub act imp.
 Proof. exact extern_match_sub. Qed.
 Print Assumptions C04_extern_match_is_spec.
@@ -115,3 +116,135 @@ Theorem C04_data_segments_prefix : forall ds s ma imps i s' j, 0 <= i -> apply_d
             ((j = -1 /\ k = length ds) \/ (j = i + Z.of_nat k /\ (k < length ds)%nat)).
 Proof. exact apply_datas_prefix. Qed.
 Print Assumptions C04_data_segments_prefix.
+
+(* ---- the shared flag of a memory type (threads proposal; resolveImports checks it since adbc65a). It is part of
+   [extern_match] / [extern_sub] above and of [code_accept], so C04_import_accept_sound covers it; stated on its own:
+   an accepted memory import has the exporter's sharedness, without any side condition ... *)
+Theorem C04_memory_shared_flag_checked : forall L mn hm mx sh buflen maxN ehm emx xsh,
+  code_accept L (DMem mn hm mx sh) (XMem buflen maxN ehm emx xsh) = 0 -> sh = xsh.
+Proof. exact shared_flag_checked. Qed.
+Print Assumptions C04_memory_shared_flag_checked.
+
+(* ... which is exactly what the specification's matching of memory types adds to the limits *)
+Theorem C04_memory_match_is_limits_and_shared : forall l sh l' sh',
+  extern_match (TMem l sh) (TMem l' sh') = true <-> limits_match l l' = true /\ sh = sh'.
+Proof. exact extern_match_shared. Qed.
+Print Assumptions C04_memory_match_is_limits_and_shared.
+
+(* ================================================================ live frames: no per-frame copy of a shared object
+   (lemmas and the three-instance examples in Proofs/LiveFrameP.v; tie: the live-frame family of the C04 check,
+   replayed on W through Rt/LinkLive.v) *)
+
+(* sequencing, with exact fuel accounting, for every value domain, host (returning, panicking, exiting, RE-ENTERING),
+   listener set and depth bound: if the prefix ends normally, the composite run with one more unit of fuel IS the run of
+   the suffix (with at least two units) in the store and frame the prefix reached; conversely a composite run that
+   finishes is the prefix's run (same fuel) followed, if that ended normally, by a run of the suffix from what it reached *)
+Theorem C04_exec_sequencing : forall D host listened maxdepth fuel depth ii s f is1 is2,
+  (forall s' f', exec D host listened maxdepth fuel depth ii s f is1 = Normal s' f' ->
+     exists n, (2 <= n)%nat /\
+       exec D host listened maxdepth (S fuel) depth ii s f (is1 ++ is2) = exec D host listened maxdepth n depth ii s' f' is2) /\
+  (forall o, exec D host listened maxdepth fuel depth ii s f (is1 ++ is2) = o -> o <> OutOfFuel ->
+     match exec D host listened maxdepth fuel depth ii s f is1 with
+     | Normal s' f' => exists n, (1 <= n)%nat /\ exec D host listened maxdepth n depth ii s' f' is2 = o
+     | OutOfFuel => False
+     | o1 => o1 = o
+     end).
+Proof. exact exec_sequencing. Qed.
+Print Assumptions C04_exec_sequencing.
+
+(* any non-control instruction placed after ANY instruction sequence (calls into other instances, indirect calls through a
+   shared table, host functions re-entering the guest, any depth) acts on the store that sequence reached *)
+Theorem C04_step_after_any_exec : forall D host listened maxdepth fuel depth ii s f is1 i s' f',
+  simple_instr i = true ->
+  exec D host listened maxdepth fuel depth ii s f is1 = Normal s' f' ->
+  exec D host listened maxdepth (S fuel) depth ii s f (is1 ++ [i]) =
+    match step_simple D ii s' f' i with SOk s1 f1 => Normal s1 f1 | STrap t => Trap t s' | SNot => OutOfFuel end.
+Proof. exact step_after_any_exec. Qed.
+Print Assumptions C04_step_after_any_exec.
+
+(* global.get k in instance ii, after any execution, pushes the value the store reached holds at the store address
+   i_globals(ii)[k] (an address fixed by the instance record, which no execution changes): there is no per-frame copy.
+   Both directions: if the prefix ends normally so does prefix ++ [global.get k], with that value; and every normal run of
+   prefix ++ [global.get k] is a normal run of the prefix followed by that push *)
+Theorem C04_global_read_sees_latest_write : forall D host listened maxdepth fuel depth ii s f is1 k,
+  (forall s' f', exec D host listened maxdepth fuel depth ii s f is1 = Normal s' f' ->
+     forall ga v, nth_error (i_globals (the_inst D s ii)) k = Some ga -> nth_error (s_globals s') ga = Some v ->
+     exec D host listened maxdepth (S fuel) depth ii s f (is1 ++ [GlobalGet k]) = Normal s' (setstack D f' (v :: stack f'))) /\
+  (forall s2 f2, exec D host listened maxdepth fuel depth ii s f (is1 ++ [GlobalGet k]) = Normal s2 f2 ->
+     exists f' ga v, exec D host listened maxdepth fuel depth ii s f is1 = Normal s2 f' /\
+       nth_error (i_globals (the_inst D s ii)) k = Some ga /\ nth_error (s_globals s2) ga = Some v /\
+       f2 = setstack D f' (v :: stack f')).
+Proof. exact global_read_sees_latest_write. Qed.
+Print Assumptions C04_global_read_sees_latest_write.
+
+(* the step itself: global.get reads the store cell, nothing else *)
+Theorem C04_global_get_reads_store : forall D ii s f k,
+  step_simple D ii s f (GlobalGet k) =
+    match glob_read D s ii k with Some v => SOk s (setstack D f (v :: stack f)) | None => STrap TStuck end.
+Proof. exact global_get_reads_store. Qed.
+Print Assumptions C04_global_get_reads_store.
+
+(* memory: a load after any execution reads the bytes the memory at store address i_mem(ii) holds in the store reached, and is
+   bounds-checked against that memory's CURRENT length (a growth by anybody during the prefix is seen); memory.size likewise *)
+Theorem C04_load_sees_latest_write : forall D host listened maxdepth fuel depth ii s f is1 w n sx off s' f' a stk ma m,
+  exec D host listened maxdepth fuel depth ii s f is1 = Normal s' f' -> stack f' = a :: stk ->
+  i_mem (the_inst D s ii) = Some ma -> nth_error (s_mems s') ma = Some m ->
+  exec D host listened maxdepth (S fuel) depth ii s f (is1 ++ [Load w n sx off]) =
+    if to_u32 D a + off + Z.of_nat n <=? mlen m
+    then Normal s' (setstack D f' (of_bits D w (if sx then sext n w (rd_le (mdata m) (to_u32 D a + off) n)
+                                               else rd_le (mdata m) (to_u32 D a + off) n) :: stk))
+    else Trap TOob s'.
+Proof. exact load_sees_latest_write. Qed.
+Print Assumptions C04_load_sees_latest_write.
+
+Theorem C04_memory_size_sees_growth : forall D host listened maxdepth fuel depth ii s f is1 s' f' ma m,
+  exec D host listened maxdepth fuel depth ii s f is1 = Normal s' f' ->
+  i_mem (the_inst D s ii) = Some ma -> nth_error (s_mems s') ma = Some m ->
+  exec D host listened maxdepth (S fuel) depth ii s f (is1 ++ [MemorySize]) =
+    Normal s' (setstack D f' (of_bits D 32 (mlen m / 65536) :: stack f')).
+Proof. exact memory_size_sees_growth. Qed.
+Print Assumptions C04_memory_size_sees_growth.
+
+(* aliasing: two instances whose records name the same store address read the same thing in EVERY state reached by any
+   execution (any instance, any code, any outcome): loads and memory.size agree (same frame, every width/offset), global
+   reads agree, the table consulted by call_indirect is the same list *)
+Theorem C04_aliased_reads_agree_along_exec : forall D host listened maxdepth fuel depth ii s f is a b,
+  match exec D host listened maxdepth fuel depth ii s f is with
+  | Normal s' _ | Branch _ s' _ | Ret s' _ | Trap _ s' =>
+      (forall ma, shares_mem D s a b ma ->
+         (forall g w n sx off, step_simple D a s' g (Load w n sx off) = step_simple D b s' g (Load w n sx off)) /\
+         (forall g, step_simple D a s' g MemorySize = step_simple D b s' g MemorySize)) /\
+      (forall ka kb ga, shares_glob D s a ka b kb ga ->
+         glob_read D s' a ka = glob_read D s' b kb /\
+         forall g, step_simple D a s' g (GlobalGet ka) = step_simple D b s' g (GlobalGet kb)) /\
+      (forall ta, shares_tab D s a b ta -> tab_view D s' a = tab_view D s' b)
+  | OutOfFuel => True
+  end.
+Proof. exact aliased_reads_agree_along_exec. Qed.
+Print Assumptions C04_aliased_reads_agree_along_exec.
+
+(* ... and by any history of export calls *)
+Theorem C04_aliased_reads_agree_after_calls : forall D host listened maxdepth fuel calls s a b,
+  let s1 := fst (run_calls D host listened maxdepth fuel s calls) in
+  (forall ma, shares_mem D s a b ma ->
+     (forall g w n sx off, step_simple D a s1 g (Load w n sx off) = step_simple D b s1 g (Load w n sx off)) /\
+     (forall g, step_simple D a s1 g MemorySize = step_simple D b s1 g MemorySize)) /\
+  (forall ka kb ga, shares_glob D s a ka b kb ga ->
+     glob_read D s1 a ka = glob_read D s1 b kb /\
+     forall g, step_simple D a s1 g (GlobalGet ka) = step_simple D b s1 g (GlobalGet kb)) /\
+  (forall ta, shares_tab D s a b ta -> tab_view D s1 a = tab_view D s1 b).
+Proof. exact aliased_reads_agree_after_calls. Qed.
+Print Assumptions C04_aliased_reads_agree_after_calls.
+
+(* the live-frame statement in one piece: instance a's frame runs ANY code (which may reach instance b directly, through a
+   table, through the host, at any depth), then reads its global ka; b names the same store address as its global kb.
+   What a's frame reads is what b reads in the state reached: "the exporter's object itself, not a copy" *)
+Theorem C04_live_frame_read_is_shared_value : forall D host listened maxdepth fuel depth a s f is1 ka b kb ga s' f',
+  shares_glob D s a ka b kb ga ->
+  exec D host listened maxdepth fuel depth a s f is1 = Normal s' f' ->
+  match glob_read D s' b kb with
+  | Some v => exec D host listened maxdepth (S fuel) depth a s f (is1 ++ [GlobalGet ka]) = Normal s' (setstack D f' (v :: stack f'))
+  | None => exec D host listened maxdepth (S fuel) depth a s f (is1 ++ [GlobalGet ka]) = Trap TStuck s'
+  end.
+Proof. exact live_frame_read_is_shared_value. Qed.
+Print Assumptions C04_live_frame_read_is_shared_value.
